@@ -371,6 +371,7 @@ class Repo:
                 except SyntaxError as ex:
                     raise AnalysisError(f"cannot parse {path}: {ex}")
         if not os.environ.get("VERIF_NO_CANON"):
+            self._expand_replace()
             self._keywordise()
 
     def _keywordise(self):
@@ -400,6 +401,40 @@ class Repo:
                     new.append(kw)
                 c.keywords = new + c.keywords
                 c.args = []
+
+    def _expand_replace(self):
+        """`dataclasses.replace(x, f=v, ...)` with x a plain name becomes the constructor call it stands for,
+        `C(f0=x.f0, ..., f=v, ...)`, when the keywords given identify exactly one dataclass C of that module (replace() calls
+        C(**fields of x overridden by the keywords)); attribute reads of a local are side-effect free."""
+        for m in self.modules.values():
+            dcs = [ci for ci in m.classes.values() if ci.is_dataclass and not ci.is_enum() and ci.fields and "__init__" not in ci.methods]
+            if not dcs:
+                continue
+            for c in ast.walk(m.tree):
+                if not (isinstance(c, ast.Call) and (dotted(c.func) or "") in ("dataclasses.replace", "replace") and len(c.args) == 1 and isinstance(c.args[0], ast.Name) and c.keywords and all(k.arg for k in c.keywords)):
+                    continue
+                if dotted(c.func) == "replace" and self.qual(m, c.func) != "dataclasses.replace":
+                    continue
+                given = {k.arg for k in c.keywords}
+                cands = [ci for ci in dcs if given <= {n for n, _, _ in ci.fields}]
+                if len(cands) != 1:
+                    continue
+                ci = cands[0]
+                x = c.args[0].id
+                over = {k.arg: k.value for k in c.keywords}
+                kws = []
+                for n, _, _ in ci.fields:
+                    v = over.get(n)
+                    if v is None:
+                        v = ast.Attribute(value=ast.Name(id=x, ctx=ast.Load()), attr=n, ctx=ast.Load())
+                        ast.copy_location(v, c)
+                        ast.fix_missing_locations(v)
+                    kw = ast.keyword(arg=n, value=v)
+                    ast.copy_location(kw, c)
+                    kws.append(kw)
+                c.func = ast.copy_location(ast.Name(id=ci.name, ctx=ast.Load()), c.func)
+                c.args = []
+                c.keywords = kws
 
     # ------------------------------------------------------------------
     def module(self, name: str) -> Module:
